@@ -204,7 +204,7 @@ def build_class(prog, rec, W, decorated=True):
             kw['value_when_missing'] = V.build(vm['v'])
         elif vm['kind'] == 'callable':
             vv = vm['v']
-            kw['value_when_missing'] = lambda *a, **k: ['SUBSTITUTE-CALLED', V.build(vv)]
+            kw['value_when_missing'] = lambda *a, **k: ['SUBSTITUTE-CALLED', V.build(vv), len(a), sorted(k)]
         if not decorated:
             g = f
         elif d['kind'] == 'static':
@@ -261,6 +261,10 @@ def build_class(prog, rec, W, decorated=True):
             W.sites[s['sid']] = ('e', e)
             if s.get('reraise'):
                 raise
+            if s.get('reraise_framework'):
+                from playback.exceptions import TapeRecorderException
+                if isinstance(e, TapeRecorderException):
+                    raise
             return ('e', s['sid'], type(e).__name__)
         except BaseException as e:
             W.sites[s['sid']] = ('e', e)
